@@ -17,7 +17,7 @@ ID = "C09"
 LEVEL = "exploration"
 RULE = (
     "Hypothesis draws (x, g, box, 0..maxcor positive-curvature pairs) as in C08(ii) (incl. inert variables whose reduced step component is exactly zero), n=1..10; the harness computes the reference Cauchy point and c = W'(xc-x) itself and calls "
-    "lbfgsb.subspacemin.subspace_minimization; plus the calls intercepted in real convex box runs. Oracle: active variables bit-identical to xc, point equal to the dense reduced-Newton reference "
+    "lbfgsb.subspacemin.subspace_minimization; plus the calls intercepted in real box runs (as in C08(iii)); a third of the generated cases call the routine again with the same matrices object at other points of the box (other free sets). Oracle: active variables bit-identical to xc, point equal to the dense reduced-Newton reference "
     "truncated by the largest alpha<=1 (1e-7 relative), model value not above m(xc), descent direction. non-trivial = the free step is truncated by the box (alpha*<1) or the free set is a proper "
     "non-empty subset with >=1 pair in memory; distinct = distinct input"
 )
@@ -105,6 +105,34 @@ def run_case(spec, stats=None):
     xbar = subspace_minimization(x, xc, idx, Z, A, c, g, lb, ub, mats)
     require(all(np.array_equal(a, b) for a, b in zip(ins, (x, xc, g, c))), "inputs-untouched", "x, xc, g or c modified in place")
     alpha, free = judge(x, g, lb, ub, mats, xc, xbar, stats)
+    # the routine called again with the same matrices object at other points of the same box (the solver does that when the
+    # newest pair is rejected): the answer must depend on the arguments only -- judged against matrices built afresh
+    from vf.props.c08 import mats_equal, mats_snapshot
+
+    fresh, _ = build_mats(n, spec["S"], spec["Y"], spec["maxcor"])
+    snap = mats_snapshot(fresh)
+    require(mats_equal(snap, mats_snapshot(mats)), "model-untouched", "the matrices object handed to the subspace minimisation was modified by the call")
+    for k, alt in enumerate(spec.get("again", [])):
+        x2 = np.clip(np.array(alt["x"], dtype=float), lb, ub)
+        g2 = np.array(alt["g"], dtype=float)
+        if float(np.max(np.abs(np.clip(x2 - g2, lb, ub) - x2))) == 0.0:
+            continue
+        xc2, _ = ref_cauchy_point(x2, g2, lb, ub, B)
+        xc2 = np.clip(xc2, lb, ub)
+        c2 = (np.asarray(fresh.W).T @ (xc2 - x2)) if fresh.use_factor else np.zeros(np.asarray(fresh.W).shape[1])
+        free2 = (xc2 != lb) & (xc2 != ub)
+        idx2, Z2, A2 = zmat(n, free2)
+        xbar2 = subspace_minimization(x2, xc2, idx2, Z2, A2, c2, g2, lb, ub, mats)
+        try:
+            judge(x2, g2, lb, ub, fresh, xc2, xbar2, stats, tag=f"call #{k + 2} on the same matrices object, free set {idx2.tolist()} after {np.sort(np.asarray(idx)).tolist()}")
+        except Discard:
+            continue
+        require(mats_equal(snap, mats_snapshot(mats)), "model-untouched", f"the matrices object was modified by call #{k + 2}")
+        if stats is not None:
+            stats.bump("repeated-calls-on-the-same-matrices-object")
+            if set(idx2.tolist()) < set(np.asarray(idx).tolist()) and idx2.size:
+                stats.bump("repeated-call-with-a-strictly-smaller-free-set")
+        idx = idx2
     if stats is not None:
         nf = int(free.sum())
         nt = (alpha < 1.0 and nf > 0) or (0 < nf < n and npairs >= 1)
